@@ -129,13 +129,13 @@ function slug (s) { return s.replace(/[^A-Za-z0-9]+/g, '_').replace(/^_+|_+$/g, 
 function workerMain (engine, seed, from, to, tier) {
   const plans = []
   for (let run = from; run < to; run++) plans.push(engine.plan(seed, run, tier))
-  const table = new RewriteTable()
-  const jobs = []
-  for (const p of plans) for (const j of engine.jobs(p)) jobs.push(j)
-  table.fill(jobs)
   plans.forEach((plan, i) => {
     const run = from + i
     process.stdout.write(JSON.stringify({ run, start: true }) + '\n')
+    // one rewriter process per run, fed with exactly this run's jobs in plan order: what a run
+    // sees is a function of its plan only, so a replay in a fresh process sees the same
+    const table = new RewriteTable()
+    table.fill(engine.jobs(plan))
     const report = engine.execute(plan, table)
     const line = { run, report }
     if (report.violations.length) line.plan = plan
